@@ -19,8 +19,10 @@ import (
 
 	"github.com/fabiolb/fabio/auth"
 	"github.com/fabiolb/fabio/config"
+	"github.com/fabiolb/fabio/logger"
 	"github.com/fabiolb/fabio/proxy"
 	"github.com/fabiolb/fabio/route"
+	"github.com/go-kit/kit/metrics/discard"
 )
 
 // The environment shared by the C07 streams: one recording upstream and one front listener per harness
@@ -197,13 +199,65 @@ func getEnv() *c07env {
 
 var globCache = route.NewGlobCache(100)
 
+// pcfg is the part of the proxy's configuration — other than the route options — that puts code of fabio on the
+// path of every request: the span-name template (trace.CreateSpan runs it before the lookup, whether or not a
+// tracer is installed), the request-id header, the access logger, the metrics hooks, the flush intervals.
+// None of it may change what the upstream receives or what the client gets back (the request-id header apart).
+type pcfg struct {
+	Span  string `json:"span"`  // tracing.spanname ("" = not configured)
+	ReqID string `json:"reqid"` // proxy.header.requestid ("" = not configured)
+	Log   bool   `json:"log"`   // an access logger is installed (combined format)
+	Stats bool   `json:"stats"` // the metrics hooks are installed
+	Flush int    `json:"flush"` // proxy.flushinterval and proxy.globalflushinterval in ms (0 = not configured)
+}
+
+func (c pcfg) any() bool { return c != pcfg{} }
+
+func (c pcfg) check() error {
+	if len(c.Span) > 120 {
+		return errors.New("span name template too long")
+	}
+	if c.ReqID != "" && (!validToken(c.ReqID) || len(c.ReqID) < 3 || !strings.EqualFold(c.ReqID[:2], "x-")) {
+		return errors.New("request-id header is drawn from the X- names")
+	}
+	if c.Flush < 0 || c.Flush > 1000 {
+		return errors.New("flush interval out of range")
+	}
+	return nil
+}
+
+// the access logger reads the request, the request URL saved before the rewrite and the target URL after the handler ran
+var accessLog, _ = logger.New(io.Discard, logger.CombinedFormat+` $request_url $request_args $upstream_request_url $header.X-A`)
+
+// apply puts the configuration on a proxy under construction.
+func (c pcfg) apply(p *proxy.HTTPProxy) {
+	p.TracerCfg = config.Tracing{ServiceName: "fabio", SpanName: c.Span}
+	p.UUID = func() string { return "verif-request-id" }
+	p.Config.RequestID = c.ReqID
+	if c.Flush > 0 {
+		p.Config.FlushInterval = time.Duration(c.Flush) * time.Millisecond
+		p.Config.GlobalFlushInterval = time.Duration(c.Flush) * time.Millisecond
+	}
+	if c.Log {
+		p.Logger = accessLog
+	}
+	if c.Stats {
+		p.Stats = proxy.HttpStatsHandler{Requests: discard.NewHistogram(), Noroute: discard.NewCounter(), WSConn: discard.NewGauge(),
+			StatusTimer: discard.NewHistogram(), RedirectCounter: discard.NewCounter()}
+	}
+}
+
 // install builds a real proxy.HTTPProxy whose Lookup consults a table parsed by the real route.NewTable from
 // the given route commands ("UPSTREAM" in them is replaced by the upstream's address), and resets the recorder.
 func (e *c07env) install(cfg config.Proxy, routes string, rep *upReply) error {
-	return e.installWith(cfg, routes, rep, nil)
+	return e.installCfg(cfg, pcfg{}, routes, rep, nil)
 }
 
 func (e *c07env) installWith(cfg config.Proxy, routes string, rep *upReply, schemes map[string]auth.AuthScheme) error {
+	return e.installCfg(cfg, pcfg{}, routes, rep, schemes)
+}
+
+func (e *c07env) installCfg(cfg config.Proxy, pc pcfg, routes string, rep *upReply, schemes map[string]auth.AuthScheme) error {
 	routes = strings.ReplaceAll(routes, upstreamName, e.upAddr)
 	tbl, err := route.NewTable(bytes.NewBufferString(routes))
 	if err != nil {
@@ -217,6 +271,7 @@ func (e *c07env) installWith(cfg config.Proxy, routes string, rep *upReply, sche
 			return tbl.Lookup(r, "", route.Picker["rr"], route.Matcher["prefix"], globCache, false)
 		},
 	}
+	pc.apply(p)
 	e.mu.Lock()
 	e.cur = p
 	e.hits = 0
